@@ -77,7 +77,7 @@ META = {
   note="Open finding C18-F1 (duplicate entity blocks in the error text; pinned by the suite).",
  ),
  "C13": dict(
-  technique="Lean 4 proof (sorting makes the visiting order a function of the set of files: permutation invariance; serial assignment is a function of that order; positions of the sorts decided on regenerated call skeletons) + byte comparison of artifacts from repeated brand-new sessions",
+  technique="Lean 4 proof (any two sorted arrangements of the same elements under a lexicographic key comparator are one list when the keys tell the elements apart - for every key order, every key list, every sorting algorithm; the comparators of every slices.SortFunc call site, regenerated from the source, are of that shape and the controller sort uses (package path, name); serial assignment is a function of the visiting order; positions of the sorts decided on regenerated call skeletons) + byte comparison of artifacts from repeated brand-new sessions",
   text="That any two enumerations of the same files/controllers lead to the same visiting order, hence the same import serials, is a Lean theorem (sorted permutations are equal); that the sorts exist and sit after the map iterations is decided on call skeletons regenerated from packages.facade.go and pipeline.go on every run. Each run also compares the bytes of the routes file and both spec versions across five brand-new sessions per generated project, across engines for the spec, and dated vs undated routes.",
   note="Holds after fix 9a8836e (file-name order, controller order). No injection hooks: order variation comes from Go's map randomisation.",
  ),
